@@ -205,6 +205,10 @@ def _jac_rank(fn, n, want, rng, label, functions, softplus_k=0, tries=3):
     for t in range(tries):
         pt = {v: sp.Rational(int(rng.integers(1, 9)), int(rng.integers(1, 4))) * (1 if (v in pvars or rng.random() < 0.7) else -1) for v in variables}
         J = sp.Matrix([[sp.diff(c, v) for v in variables] for c in comps]).subs(pt)
+        if any(x.free_symbols for x in J):
+            # a parameter enters both through softplus and directly (not the case on the unchanged tree): the reparametrisation trick does not apply
+            return ob(f'{PROP}.exact_jacobian_rank.{label}', 'undecided', functions=functions, tier='P', backend='sympy-exact-jacobian-rank',
+                      detail='the symbolic Jacobian keeps free symbols after substitution (a parameter is read both through softplus and directly): no exact rank; the bounded autograd check decides')
         if all(x.is_Rational for x in J):
             rk = J.rank(); exact = True
         else:
